@@ -11,7 +11,7 @@ CLAIMS = {
 CLAIMS.update({
  "C08": dict(text="25 theorems: the model of the streaming Merkleize loop and of every typed flat HTR helper equals the SSZ-spec root for every pair hash and every count <= limit < 2^64; model tied to tree/merkle.go, tree/hashing.go by exhaustive (count, limit <= 70) and boundary differential runs under two hash functions", note=BASE_NOTE),
  "C18": dict(text="28 theorems for all byte strings and 64-bit limits (validity checks accept exactly the spec packings; length/get/set/ones/zero/covers equal the bit-sequence answers) about a machine-integer model tied to package bitfields by exhaustive short-string and random differential runs", note=BASE_NOTE),
- "C04": dict(text="Model of every typed mutator and of hook propagation (object machine) run against a plain value machine on random and exhaustive short histories; theorems under construction (see evidence obligations)", note=BASE_NOTE),
- "C17": dict(text="Explicit state-machine models of the stack-based and index-based iterators tied to the code on boundary lengths and large-limit subtrees; theorems: see evidence", note=BASE_NOTE),
+ "C11": dict(text="33 theorems for every tree, path and pair hash (get/set, off-path identity, sibling and spine description, no panic, expansion = write into the materialised zero subtree, only zero summaries expand, summarise preserves the root, fill roots = spec merkleize) about the tree-navigation model, tied to package tree by exhaustive small-tree and random differential runs with pointer-identity checks on the Go side", note=BASE_NOTE),
+ "C19": dict(text="24 theorems (all bases, all widths 8..256): unmarshal accepts exactly the Go literals denoting n < 2^w, never truncates; marshal/unmarshal round trips; fixed-size hex accepts exactly 2*len hex digits; model incl. transcribed stdlib parsing tied to the code by ~250k differential inputs per run", note=BASE_NOTE + " The stdlib algorithms (strconv, math/big, encoding/hex, uint256) are environment: transcribed and checked differentially."),
 })
 NOT_APPLICABLE = {}
